@@ -16,8 +16,39 @@ def _w():
     return getattr(TL, 'w', None)
 
 
+class Pt(tuple):
+    """stand-in for a namedtuple-like argument (a tuple subclass): plain Python hands it to the function as it is"""
+    __slots__ = ()
+
+    def __new__(cls, *a):
+        return tuple.__new__(cls, a)
+
+    def __getnewargs__(self):
+        return tuple(self)
+
+    def __repr__(self):
+        return 'Pt' + tuple.__repr__(self)
+
+
+class OD(dict):
+    """a dict subclass argument"""
+
+    def __repr__(self):
+        return 'OD(' + dict.__repr__(self) + ')'
+
+
+class LL(list):
+    """a list subclass argument"""
+
+    def __repr__(self):
+        return 'LL(' + list.__repr__(self) + ')'
+
+
 def canon(v):
-    """deterministic text for a value"""
+    """deterministic text for a value (container subclasses keep their type name: type fidelity is part of the value)"""
+    if type(v) not in (dict, list, tuple) and isinstance(v, (dict, list, tuple)):
+        base = dict if isinstance(v, dict) else (list if isinstance(v, list) else tuple)
+        return '%s<%s>' % (type(v).__name__, canon(base(v)))
     if isinstance(v, dict):
         return '{' + ', '.join('%s: %s' % (canon(k), canon(v[k])) for k in sorted(v, key=repr)) + '}'
     if isinstance(v, list):
@@ -114,6 +145,12 @@ def inc(k, a):
 
 
 @_logged
+def nil(k):
+    """a task whose result is None (stored as an empty file by the file backend)"""
+    return None
+
+
+@_logged
 def idx(k, n):
     """an int in range(n): used as a task-valued index"""
     return k % n
@@ -162,7 +199,7 @@ def mul(a, b):
     return num(a) * num(b)
 
 
-RAW = {n: globals()[n] for n in ('const', 'mk', 'pair', 'add', 'use', 'mkdict', 'inc', 'idx', 'arr', 'asq')}
+RAW = {n: globals()[n] for n in ('const', 'mk', 'pair', 'add', 'use', 'mkdict', 'inc', 'idx', 'arr', 'asq', 'nil')}
 
 
 def jug_namespace():
@@ -176,7 +213,7 @@ def jug_namespace():
     ns = {n: TaskGenerator(f) for n, f in RAW.items()}
     ns.update(dict(Task=Task, iteratetask=iteratetask, jmap=jmap, mapreduce=mapreduce, currymap=currymap, jreduce=jreduce,
                    identity=identity, CustomHash=CustomHash, NoHash=NoHash, hash_one=hash_one, return_tuple=return_tuple,
-                   dbl=dbl, wrap=wrap, cat=cat, mul=mul,
+                   dbl=dbl, wrap=wrap, cat=cat, mul=mul, Pt=Pt, OD=OD, LL=LL,
                    pair2=return_tuple(3)(TaskGenerator(RAW['pair']))))
     return ns
 
@@ -200,7 +237,7 @@ def plain_namespace():
         return functools.reduce(r, list(xs)) if xs else []
     ns.update(dict(Task=lambda f, *a, **k: f(*a, **k), iteratetask=lambda t, n: [t[i] for i in range(n)], jmap=jmap, mapreduce=mapreduce,
                    currymap=currymap, jreduce=jreduce, identity=lambda x: x, CustomHash=lambda x, h: x, NoHash=lambda x: x,
-                   hash_one=lambda x: b'', return_tuple=lambda n: (lambda f: f), dbl=dbl, wrap=wrap, cat=cat, mul=mul, pair2=RAW['pair']))
+                   hash_one=lambda x: b'', return_tuple=lambda n: (lambda f: f), dbl=dbl, wrap=wrap, cat=cat, mul=mul, pair2=RAW['pair'], Pt=Pt, OD=OD, LL=LL))
     return ns
 
 
@@ -212,6 +249,14 @@ def __getattr__(name):
     if name in ns:
         return ns[name]
     raise AttributeError(name)
+
+
+def same(x):
+    """a function without a key argument: two consumers `same(v1)`, `same(v2)` differ only in their argument"""
+    return ['same', x]
+
+
+same.__module__ = __name__
 
 
 def lit(k, v):
